@@ -11,7 +11,7 @@ CASES = {'quick': 1500, 'thorough': 40000}
 GATES = {
     'quick': {'evaluations': 30000, 'equal_pairs': 15000, 'token_perturbations': 3000, 'child_perturbations': 2500,
               'attribution_perturbations': 500, 'type_perturbations': 300, 'class_fields_perturbed': 120, 'token_law_pairs': 10000,
-              'whole_file_text_perturbations': 3000, 'token_law_after_edit': 3000, 'documents_in_small_blocks': 400,
+              'whole_file_text_perturbations': 3000, 'token_law_after_edit': 3000, 'documents_in_small_blocks': 400, 'models_with_custom_indent_by': 200,
               'submodel_copies': 4000},
     'thorough': {'evaluations': 800000, 'class_fields_perturbed': 160},
 }
@@ -115,13 +115,20 @@ def run_case(col, r, idx):
     if list(pa) != list(pb):
         col.violation('two-parses-differ-in-shape', 'parsing the same text twice gave trees of different shape', wit)
         return
+    if idx % 3 == 1:
+        # entries and postings with an indent_by of their own (assignable at any time; part of what equality compares)
+        for _, m_ in walker.tree_models(a):
+            if 'indent_by' in vars(m_) and r.random() < 0.5:
+                m_.indent_by = r.choice(['  ', '\t', '      ', ' '])
+                col.count('models_with_custom_indent_by')
+        b = None
     c = copy.deepcopy(a)
     pc = by_path(c)
     for path, m in pa.items():
         col.count('equal_pairs', 2)
         if isinstance(m, mbase.RawTreeModel):
             col.nontrivial(text, 'equal', path)
-        if not expect_equal(col, m, pb[path], f'parse-twice:{type(m).__name__}', f'{path} of two parses', dict(wit, path=path)):
+        if b is not None and not expect_equal(col, m, pb[path], f'parse-twice:{type(m).__name__}', f'{path} of two parses', dict(wit, path=path)):
             return
         if path in pc and not expect_equal(col, m, pc[path], f'deepcopy:{type(m).__name__}', f'{path} and its deep copy', dict(wit, path=path)):
             return
